@@ -305,6 +305,12 @@ def main():
         ct, tag = aead_encrypt(key, nonce, aad, pt, rounds)
         k.append('AeadEncrypt(%d, %s, %s, %s, %s) = <<%s, %s>>' % (rounds, tl(key), tl(nonce), tl(aad), tl(pt), tl(ct), tl(tag)))
         k.append('AeadDecrypt(%d, %s, %s, %s, %s, %s) = <<%s, TRUE>>' % (rounds, tl(key), tl(nonce), tl(aad), tl(ct), tl(tag), tl(pt)))
+    # the length field of a Merkle-Damgard padding with a preset byte count (Words.LenFieldBE / LE): ((off + n) * 8) mod 2^(8 width)
+    for off, n, w in ((0, 3, 8), ((1 << 29) - 1, 1, 8), (1 << 29, 0, 8), ((1 << 32) - 64, 70, 8), ((1 << 61) - 1, 0, 8), ((1 << 61) - 1, 0, 16), ((1 << 64) - 1, 2, 16),
+                      ((1 << 125) - 1, 1, 16), (0x0123456789abcdef0123456789abcd, 300, 16)):
+        v = ((off + n) * 8) % (1 << (8 * w))
+        k.append('LenFieldBE(%s, %d, %d) = %s' % (tl(off.to_bytes(16, "little")), n, w, tl(v.to_bytes(w, "big"))))
+        k.append('LenFieldLE(%s, %d, %d) = %s' % (tl(off.to_bytes(16, "little")), n, w, tl(v.to_bytes(w, "little"))))
     emit("SpecKAT_Sym", "AEAD", "Known answers for ChaCha.tla, Salsa.tla, Poly1305.tla, AEAD.tla: RFC 8439 2.3.2 / 2.4.2 / 2.5.2 / 2.8.2, draft-irtf-cfrg-xchacha 2.2.1, "
          "eSTREAM Salsa20 set 1 vector 0, poly1305-donna and TLS-draft vectors, and values computed by an independent Python re-implementation (itself asserted against those vectors), "
          "including the 2^32 counter boundary (wrap for the IETF layout, carry for the 64-bit counters), 8/12/20 rounds and 16/32-byte keys.", k)
